@@ -2,6 +2,7 @@
 from __future__ import annotations
 
 import copy
+import json
 
 from .. import core
 from .. import gen as G
@@ -250,12 +251,49 @@ def _options_history(ctx):
                                       {"doc": doc, "op": op, "options": kw if which == "other" else {}, "order": order, "member meant": target}, got, {"ok": core.canon(want)})
 
 
+def _eqv_tie(ctx):
+    """`J.eqv` - the equality every `test` / membership / intersection theorem is stated with - against RFC 8259 equality written
+    independently in Python (`core.json_equal`), and against the implementation's own `test` operation at the root, on every value of
+    the document universe (and every value inside one) paired with its look-alikes (1 / true / 1.0, reordered and renamed members,
+    a string and the array of its characters)."""
+    from jsonpath import JSONPatch
+
+    vals, seen = [], set()
+    for d in docs_universe():
+        for _loc, v in G.locations(d):
+            key = json.dumps(v, sort_keys=False)
+            if key not in seen:
+                seen.add(key); vals.append(v)
+    pairs = []
+    for v in vals:
+        for w in lookalikes(v):
+            pairs.append((v, w)); pairs.append((w, v))
+    reqs, meta = [], []
+    for a, b in pairs:
+        try:
+            reqs.append({"op": "json.eqv", "a": core.enc(a), "b": core.enc(b)}); meta.append((a, b))
+        except core.Unencodable:
+            continue
+    for (a, b), m in zip(meta, ctx.driver.run(reqs, jobs=ctx.jobs)):
+        want = core.json_equal(a, b)
+        ctx.case(("eqv", json.dumps([a, b])), nontrivial=True)
+        if m.get("eqv") is not want:
+            ctx.mismatch("json.eqv", {"a": a, "b": b}, want, m.get("eqv"))
+        if isinstance(a, str):          # a `str` document is JSON text to `apply`, not a string value
+            continue
+        r = core.outcome(lambda: JSONPatch().test("", b).apply(copy.deepcopy(a)))
+        got = "ok" in r
+        if got is not want and (("ok" in r) or r.get("err") == "JSONPatchTestFailure"):
+            ctx.violation("test succeeds exactly when the two values are equal as JSON values", {"doc": a, "value": b}, got, want)
+
+
 def evaluate(ctx, cases):
     from jsonpath import JSONPatch
 
     if not getattr(ctx, "_options_history_done", False):
         ctx._options_history_done = True
         _options_history(ctx)
+        _eqv_tie(ctx)
 
     reqs, meta = [], []
     for c in cases:
